@@ -13,6 +13,7 @@ mod e_net;
 mod e_prefix;
 mod e_server;
 mod e_srvsplit;
+mod e_stream;
 mod e_wantlist;
 mod node;
 mod gen;
@@ -58,6 +59,7 @@ fn run_engine(engine: &str, seed: u64, n: usize, tier: &str) {
         "server" => e_server::run(seed, n, tier),
         "client" => e_client::run(seed, n, tier),
         "net" => e_net::run(seed, n, tier),
+        "stream" => e_stream::run(seed, n, tier),
         "srvsplit" => e_srvsplit::run(seed, n, tier),
         "handler" => e_handler::run_client(seed, n, tier),
         "srvhandler" => e_handler::run_server(seed, n, tier),
